@@ -445,8 +445,9 @@ def run(prog, rep):
         via_fcntl = False
         fmsg = ""
         setfd = []
+        fdvars = fn.copies_of(fdvar) if fdvar else set()
         for bb, ii, c2 in fn.calls():
-            if c2.get("callee") == "fcntl" and cv(c2["args"][1]) == F_SETFD and root_var(c2["args"][0]) == fdvar and len(c2["args"]) > 2:
+            if c2.get("callee") == "fcntl" and cv(c2["args"][1]) == F_SETFD and root_var(c2["args"][0]) in fdvars and len(c2["args"]) > 2:
                 flagv = root_var(c2["args"][2])
                 a2 = strip_casts(c2["args"][2])
                 ored = a2 is not None and a2["k"] == "bin" and a2["op"] == "|" and ((cv(a2["r"]) or 0) & FD_CLOEXEC or (cv(a2["l"]) or 0) & FD_CLOEXEC)
